@@ -345,6 +345,8 @@ def deductFee (s : State) (creator : Addr) : Except Err State :=
 /-- keeper `createPool` after fee and escrow -/
 def createPoolCore (s : State) (id : PoolId) (creator : Addr) (desc : String) (lpt : Denom) (start : Int)
     (rpb total : CoinList) (editable : Bool) : R :=
+  -- ids come from a strictly increasing sequence; a clash cannot happen (modelling guard)
+  if (getPool s id).isSome then .error (.panic "pool id clash") else
   match minInterval (newRules total rpb) with
   | none => .error (.panic "division by zero")
   | some m =>
@@ -377,21 +379,23 @@ def stepCreatePool (s : State) (id : PoolId) (sender : Addr) (desc : String) (lp
       | .error e => .error e
       | .ok s2 => createPoolCore s2 id sender desc lpt start rpb total editable
 
+/-- `Refund` zeroes every rule's remaining budget (ghost: books it as refunded) -/
+def zeroRules (rs : List Rule) : List Rule :=
+  rs.map fun r => { r with remaining := 0, refunded := r.refunded + r.remaining, nRefund := r.nRefund + 1 }
+
+/-- `refundTotal` -/
+def refundCoins (rs : List Rule) : CoinList := nonzero (rs.map fun r => (r.denom, r.remaining))
+
 /-- `Refund`: state written so far and the verdict -/
 def refund (s : State) (id : PoolId) (p : Pool) : State × Option Err :=
   match updatePool (dequeue s id p.endH) id p 0 true with
   | (s1, .error e) => (s1, some e)
   | (s1, .ok p1) =>
-    if nonzero (p1.rules.map fun r => (r.denom, r.remaining)) = [] then
-      (setPool s1 id { p1 with rules := p1.rules.map fun r =>
-          { r with remaining := 0, refunded := r.refunded + r.remaining, nRefund := r.nRefund + 1 } },
-       some (.reject "no remaining reward"))
+    if refundCoins p1.rules = [] then
+      (setPool s1 id { p1 with rules := zeroRules p1.rules }, some (.reject "no remaining reward"))
     else
-      match sendAll (setPool s1 id { p1 with rules := p1.rules.map fun r =>
-                { r with remaining := 0, refunded := r.refunded + r.remaining, nRefund := r.nRefund + 1 } })
-              farmAcc p1.creator (nonzero (p1.rules.map fun r => (r.denom, r.remaining))) with
-      | .error e => (setPool s1 id { p1 with rules := p1.rules.map fun r =>
-                { r with remaining := 0, refunded := r.refunded + r.remaining, nRefund := r.nRefund + 1 } }, some e)
+      match sendAll (setPool s1 id { p1 with rules := zeroRules p1.rules }) farmAcc p1.creator (refundCoins p1.rules) with
+      | .error e => (setPool s1 id { p1 with rules := zeroRules p1.rules }, some e)
       | .ok s2 => (s2, none)
 
 def stepDestroyPool (s : State) (sender : Addr) (id : PoolId) : R :=
